@@ -2,6 +2,7 @@ package rules
 
 import (
 	"go/ast"
+	"go/constant"
 	"go/token"
 	"go/types"
 
@@ -448,5 +449,163 @@ func runC02_14(c *core.Ctx) {
 	}
 	if sites == 0 {
 		c.Undecided("gnet", "leftover loop of writev", 0, "no segment cut of the form X[i] = X[i][B:] found in the *conn function that calls io.Writev: idiom not recognised")
+	}
+}
+
+func init() {
+	register(&core.Rule{ID: "C02.18", Prop: "C02", MinSites: 6, Applies: func(c core.Config) bool { return c.IsLinux() },
+		Desc: "the poller registers what its name says (epoll): AddRead/ModRead arm the read set, AddWrite the write set, AddReadWrite/ModReadWrite both – the one constant the event mask starts from has the value of ReadEvents / WriteEvents / ReadWriteEvents, EPOLLET is or-ed in exactly on the edgeTriggered edge, the epoll_ctl operation is ADD for Add*, MOD for Mod*, DEL for Delete, and the descriptor is the attachment's own; ReadEvents contains EPOLLIN and not EPOLLOUT, WriteEvents is EPOLLOUT. A connection whose pending output is armed for reading only is never written to again; one armed for writing only never delivers input",
+		Run:  runC02_18})
+	alias("C01", "C01.16", "C02.18", "input is delivered only for descriptors armed with the read set: an Add/Mod that drops EPOLLIN (or the edge-triggered flag in ET mode) silences the connection")
+}
+
+func runC02_18(c *core.Ctx) {
+	constVal := func(rel, name string) constant.Value {
+		if k, ok := c.P.Object(rel, name).(*types.Const); ok {
+			return k.Val()
+		}
+		return nil
+	}
+	rd, wr, rw := constVal("pkg/netpoll", "ReadEvents"), constVal("pkg/netpoll", "WriteEvents"), constVal("pkg/netpoll", "ReadWriteEvents")
+	if rd == nil || wr == nil || rw == nil {
+		c.Undecided("anchor", "netpoll.ReadEvents/WriteEvents/ReadWriteEvents", token.NoPos, "constants not found")
+		return
+	}
+	bit := func(name string) constant.Value {
+		for _, pk := range c.P.Pkgs {
+			for _, imp := range pk.Types.Imports() {
+				if imp.Path() == unixPkg {
+					if k, ok := imp.Scope().Lookup(name).(*types.Const); ok {
+						return k.Val()
+					}
+				}
+			}
+		}
+		return nil
+	}
+	in, out, et := bit("EPOLLIN"), bit("EPOLLOUT"), bit("EPOLLET")
+	add, mod, del := bit("EPOLL_CTL_ADD"), bit("EPOLL_CTL_MOD"), bit("EPOLL_CTL_DEL")
+	if in == nil || out == nil || et == nil || add == nil || mod == nil || del == nil {
+		c.Undecided("anchor", "unix.EPOLL*", token.NoPos, "constants not found")
+		return
+	}
+	has := func(v, b constant.Value) bool {
+		return constant.Sign(constant.BinaryOp(constant.ToInt(v), token.AND, constant.ToInt(b))) != 0
+	}
+	eq := func(a, b constant.Value) bool { return constant.Compare(constant.ToInt(a), token.EQL, constant.ToInt(b)) }
+	f0 := getFn(c, "pkg/netpoll", "Poller.AddRead")
+	if f0 == nil {
+		return
+	}
+	c.Check(has(rd, in) && !has(rd, out) && eq(wr, out) && eq(rw, constant.BinaryOp(constant.ToInt(rd), token.OR, constant.ToInt(wr))), "netpoll", "event set constants", f0.Decl.Pos(), "ReadEvents ∋ EPOLLIN, ∌ EPOLLOUT; WriteEvents = EPOLLOUT; ReadWriteEvents = both",
+		"the event-set constants no longer say what their names say: ReadEvents must contain EPOLLIN and not EPOLLOUT, WriteEvents must be EPOLLOUT, ReadWriteEvents their union")
+	for _, op := range []struct {
+		name string
+		ctl  constant.Value
+		set  constant.Value
+	}{{"AddRead", add, rd}, {"AddWrite", add, wr}, {"AddReadWrite", add, rw}, {"ModRead", mod, rd}, {"ModReadWrite", mod, rw}, {"Delete", del, nil}} {
+		f := getFn(c, "pkg/netpoll", "Poller."+op.name)
+		if f == nil {
+			continue
+		}
+		// the epoll_ctl call
+		var ctl *ast.CallExpr
+		for _, call := range callsIn(f.Decl.Body, false) {
+			if cf := flow.CalleeFunc(f.Info, call); cf != nil && (nameOf(cf) == "EpollCtl" || nameOf(cf) == "epollCtl") && len(call.Args) == 4 {
+				ctl = call
+			}
+		}
+		if ctl == nil {
+			c.Violate(f.Name, "epoll_ctl call", f.Decl.Pos(), "Poller."+op.name+" makes no epoll_ctl call")
+			continue
+		}
+		cv := flow.ConstOf(f.Info, ctl.Args[1])
+		c.Check(cv != nil && eq(cv, op.ctl), f.Name, "epoll_ctl operation", ctl.Pos(), "the operation its name says",
+			"Poller."+op.name+" issues a different epoll_ctl operation than its name says (ADD for Add*, MOD for Mod*, DEL for Delete): the registration is not created, not changed or not removed")
+		fdOK := false
+		if sel, ok := seeThrough(f, ctl.Args[2]).(*ast.SelectorExpr); ok && flow.ObjOf(f.Info, sel.X) == types.Object(f.param(0)) && sel.Sel.Name == "FD" {
+			fdOK = true
+		}
+		if flow.ObjOf(f.Info, ctl.Args[2]) == types.Object(f.param(0)) && op.set == nil {
+			fdOK = true
+		}
+		c.Check(fdOK, f.Name, "descriptor", ctl.Pos(), "the attachment's own descriptor", "Poller."+op.name+" operates on a descriptor other than the one it was given")
+		if op.set == nil {
+			continue
+		}
+		// the one constant the mask starts from, and the or-ed flags
+		var bases []constant.Value
+		var basePos token.Pos
+		etParam := f.param(1)
+		const fET = 1
+		p := &flow.Problem{Must: true}
+		p.Edge = func(e *flow.Edge, inn uint64) uint64 {
+			if e.Cond != nil && e.Tag == nil && e.Sense && flow.ObjOf(f.Info, e.Cond) == types.Object(etParam) {
+				inn |= fET
+			}
+			return inn
+		}
+		sol := f.Graph().Solve(p)
+		ors, orsOK := 0, true
+		sol.Walk(func(b *flow.Block, i int, n ast.Node, before uint64) {
+			// ev := epollevent{events: ReadEvents}
+			ast.Inspect(n, func(x ast.Node) bool {
+				if kv, ok := x.(*ast.KeyValueExpr); ok {
+					if v := flow.ConstOf(f.Info, kv.Value); v != nil && v.Kind() == constant.Int {
+						if id, ok := kv.Key.(*ast.Ident); ok {
+							if fo, ok := f.Info.Uses[id].(*types.Var); ok && fo.IsField() {
+								if bt, ok := fo.Type().Underlying().(*types.Basic); ok && bt.Kind() == types.Uint32 {
+									bases = append(bases, v)
+									basePos = kv.Pos()
+								}
+							}
+						}
+					}
+				}
+				return true
+			})
+			switch y := n.(type) {
+			case *ast.AssignStmt:
+				for k, r := range y.Rhs {
+					v := flow.ConstOf(f.Info, r)
+					if v == nil || v.Kind() != constant.Int || k >= len(y.Lhs) {
+						continue
+					}
+					if bt, ok := f.Info.TypeOf(y.Lhs[k]).Underlying().(*types.Basic); !ok || bt.Kind() != types.Uint32 {
+						continue
+					}
+					switch y.Tok {
+					case token.ASSIGN, token.DEFINE:
+						bases = append(bases, v)
+						basePos = y.Pos()
+					case token.OR_ASSIGN:
+						ors++
+						if !has(v, et) || has(v, in) || has(v, out) || before&fET == 0 {
+							orsOK = false
+						}
+					default:
+						orsOK = false
+					}
+				}
+			case *ast.ValueSpec: // var ev uint32 = ReadEvents (go/cfg lists the specs of a declaration statement)
+				for k, val := range y.Values {
+					if v := flow.ConstOf(f.Info, val); v != nil && v.Kind() == constant.Int && k < len(y.Names) {
+						if o := f.Info.Defs[y.Names[k]]; o != nil {
+							if bt, ok := o.Type().Underlying().(*types.Basic); ok && bt.Kind() == types.Uint32 {
+								bases = append(bases, v)
+								basePos = y.Pos()
+							}
+						}
+					}
+				}
+			}
+		})
+		if basePos == token.NoPos {
+			basePos = f.Decl.Pos()
+		}
+		c.Check(len(bases) == 1 && eq(bases[0], op.set), f.Name, "event set", basePos, "the set its name says",
+			"Poller."+op.name+" does not start its event mask from exactly the set its name says (ReadEvents / WriteEvents / ReadWriteEvents): the descriptor is armed for the wrong direction – pending output is never flushed, or input is never delivered")
+		c.Check(ors == 1 && orsOK, f.Name, "edge-triggered flag", basePos, "EPOLLET or-ed in exactly on the edgeTriggered edge",
+			"Poller."+op.name+" does not add EPOLLET (and only flags, no direction bits) exactly when edgeTriggered is set: an ET engine gets level-triggered registrations (its drain loops spin or starve) or an LT engine edge-triggered ones (events are lost)")
 	}
 }
